@@ -70,6 +70,7 @@ var symbolic = map[string]bool{"EQL": true, "COLON": true, "COMMA": true, "DOLLA
 	"NEQ_REGEX": true, "POW": true, "SUB": true, "AT": true}
 
 type token struct {
+	pos  int    // byte offset in the lexed text
 	name string // goyacc token name, "ERR" for a lexer error
 	text string // raw text
 	val  string // STRING: unquoted value
@@ -90,7 +91,7 @@ func lexAll(s string) (toks []token, clean bool) {
 		case parser.COMMENT:
 			continue
 		}
-		t := token{name: parser.VerifTokName(it.Typ), text: it.Val}
+		t := token{pos: int(it.Pos), name: parser.VerifTokName(it.Typ), text: it.Val}
 		if it.Typ == parser.STRING {
 			t.val, t.uok = parser.VerifUnquote(it.Val)
 		}
@@ -458,6 +459,42 @@ func anyZeroDuration(e parser.Expr) bool {
 		}
 	}
 	return false
+}
+
+// lexStrings: every string literal of the text (up to 3), as the real lexer cuts it from the input that starts at its
+// opening quote, and the same input cut short / with its last byte dropped (unterminated strings and escapes):
+//
+//	> lexstr <hex of the input>    < str <len of the STRING token> | err
+func lexStrings(h *verifx.H, r *verifx.Rng, text string, toks []token) {
+	n := 0
+	try := func(in string) {
+		if in == "" || n >= 6 {
+			return
+		}
+		n++
+		h.Op("lexstr %s", hx(in))
+		var it parser.Item
+		parser.Lex(in).NextItem(&it)
+		if it.Typ == parser.STRING && it.Pos == 0 {
+			h.Obs("str %d", len(it.Val))
+		} else {
+			h.Obs("err")
+		}
+		h.Stat("lexstr", 1)
+	}
+	for _, t := range toks {
+		if t.name != "STRING" || t.pos >= len(text) {
+			continue
+		}
+		in := text[t.pos:]
+		if len(in) > 200 {
+			in = in[:200]
+		}
+		try(in)
+		if r.Chance(1, 3) {
+			try(in[:1+r.Intn(len(t.text))]) // cut inside the literal
+		}
+	}
 }
 
 // lexObs: the model's `tokOk` must hold for every token the real lexer produced, except a duration that
@@ -1243,7 +1280,7 @@ func main() {
 			h.Stat("gen.special-strings", int64(g.specials))
 		}
 		h.Note("src %q", src)
-		runCase(h, src)
+		runCase(h, r, src)
 	})
 	h.Done()
 }
@@ -1262,12 +1299,13 @@ func checkParse(h *verifx.H, src string, what string) (parsed, bool) {
 	return r, true
 }
 
-func runCase(h *verifx.H, src string) {
+func runCase(h *verifx.H, r0 *verifx.Rng, src string) {
 	toks, clean := lexAll(src)
 	if !clean {
 		h.Stat("lex.error", 1)
 	}
 	r, ok := checkParse(h, src, "generated")
+	lexStrings(h, r0, src, toks)
 	h.Op("parse %s", renderFull(toks))
 	lexObs(h, toks)
 	if !ok {
@@ -1318,6 +1356,7 @@ func runCase(h *verifx.H, src string) {
 
 	// parse the printed text
 	r2, ok2 := checkParse(h, printed, "printed")
+	lexStrings(h, r0, printed, ptoks)
 	h.Op("parse %s", renderFull(ptoks))
 	lexObs(h, ptoks)
 	switch {
